@@ -20,9 +20,12 @@ def check(run, model, tier):
     run.rule('HSM-PROGRESS.loops', 'each loop: decreasing index / answer-steered / I1-bounded / repeat-parent guarded cursor walk')
     run.rule('HSM-PROGRESS.none', 'walk-steering answers tested for None (-> HsmTopologyException) before comparison')
     run.rule('HSM-PROGRESS.sibling', 'init and dispatch guard their initial-transition walks alike')
-    run.rule('HSM-BUF.O3-load', 'loads from the path buffer in init are inside it (index >= 0)')
+    run.rule('HSM-BUF.O3-load', 'loads from the path buffer in init and dispatch are inside it (index >= 0)')
     run.rule('HSM-BUF.O1-store', 'stores into the path buffer in init are inside it')
     run.rule('HSM-BUF.O2-append', 'grow-appends in init are at the believed index')
     hsmrules.progress_rules(run, model)
     hsmrules.record_buffer_obligations(run, model, 'init')
+    # the same for the initial transitions that dispatch follows after entering a target: a walk of length zero (init target is the state itself) must not
+    # fall through to the entry loop with index -1 (it would enter a stale state and ask for the initial transition again, for ever)
+    hsmrules.record_buffer_obligations(run, model, 'dispatch')
     run.assume('H1: top answers IGNORED to SUPER queries and does not move the cursor; a well-formed handler moves the cursor to its parent')
